@@ -1,4 +1,5 @@
 import GixModel.Lemmas.C27
+import GixModel.Lemmas.C27Body
 /-
 C27 — Config values are interpreted like git.  PROPERTY THEOREMS ONLY.
 
@@ -16,9 +17,9 @@ base 0), tied to the git 2.39.5 binary by the same harness. What is proved:
   including overflowing ones): git's answer is gitoxide's, except that git rejects i64::MIN.
   Over the suffix table EXTRACTED from integer.rs.
 * `section_match_case`, `section_match_like_git`, `lookup_last_section_wins`.
-Not proved (kept as `value_eq_git_full` / `lookup_last_value_full`): equality of the value text
-git's one-pass `parse_value` produces with gitoxide's events + normalize, and last-one-wins inside
-one section body. The known, listed differences between the two programs are outside every
+* `lookup_last_value` / `lookup_last_wins` (ALL parsed files): last one wins inside a section too.
+Not proved (kept as `value_eq_git_full`): equality of the value text git's one-pass `parse_value`
+produces with gitoxide's events + normalize. The known, listed differences between the two programs are outside every
 theorem's domain by construction (see the config's level_note).
 -/
 namespace GixModel.Props.C27
@@ -162,11 +163,44 @@ programs accept the same texts and read the same value. -/
 def value_eq_git_full (plain : Bytes → Prop) : Prop :=
   ∀ text, plain text → gixValueOfText text = gitParseValue text
 
-/-- Full statement (NOT proved): inside one section body of a parsed file the last `key = value`
-wins (`value_implicit`'s backwards index scan agrees with the forward scan of `values`), unless
-that last occurrence is a key without `=`. -/
-def lookup_last_value_full : Prop :=
-  ∀ bs f, fileFromBytes bs = some f → ∀ s ∈ f.sections, ∀ key,
-    valueImplicit key s.body ≠ some none → bodyValue key s.body = (bodyValues key s.body).getLast?
+/-- Last one wins INSIDE a section, for every parsed file and every key: `Body::value` (the backwards
+index scan of `key_and_value_range_by`, then `value_implicit`) is the last element of
+`Body::values` (the forward scan) — unless the last occurrence of the key has no `=`, which
+gitoxide documents as "no value". Proved via: every body the parser produces is a sequence of
+items (`fileFromBytes_wf`), on which the index scan is characterised exactly (`rangeScan_items`). -/
+theorem lookup_last_value (bs : Bytes) (f : File) (h : fileFromBytes bs = some f) (s : Section)
+    (hs : s ∈ f.sections) (key : Bytes) (hne : valueImplicit key s.body ≠ some none) :
+    bodyValue key s.body = (bodyValues key s.body).getLast? := by
+  obtain ⟨is, hok, hfl⟩ := fileFromBytes_wf h s hs
+  rw [← hfl] at hne ⊢
+  exact bodyValue_last key is hok hne
+
+/-- … and with `lookup_last_section_wins`: `raw_value` is the last explicit value of the last
+matching section that has one. -/
+theorem lookup_last_wins (bs : Bytes) (f : File) (h : fileFromBytes bs = some f) (name : Bytes)
+    (sub : Option Bytes) (key v : Bytes) (hv : rawValue f name sub key = .ok v) :
+    ∃ s ∈ f.sections, gixMatches s.header name sub = true ∧ bodyValue key s.body = some v ∧
+      (valueImplicit key s.body ≠ some none → (bodyValues key s.body).getLast? = some v) := by
+  obtain ⟨pre, s, post, hsec, hb, _⟩ := lookup_last_section_wins f name sub key v hv
+  have hmem : s ∈ f.sections ∧ gixMatches s.header name sub = true := by
+    unfold sectionsBy at hsec
+    simp only at hsec
+    split at hsec
+    · simp at hsec
+    · split at hsec
+      · simp at hsec
+      · simp only [Except.ok.injEq] at hsec
+        have : s ∈ (f.sections.filter fun s => eqIgnoreCase s.header.name name).filter fun s => s.header.sub == sub := by
+          rw [hsec]; simp
+        simp only [List.mem_filter] at this
+        exact ⟨this.1.1, by simp [gixMatches, this.1.2, this.2]⟩
+  refine ⟨s, hmem.1, hmem.2, hb, fun hne => ?_⟩
+  rw [← lookup_last_value bs f h s hmem.1 key hne, hb]
+
+-- non-vacuity: two values for `k` in one section, the second on a continuation line
+example : ∃ f, fileFromBytes [91, 97, 93, 10, 107, 61, 49, 10, 107, 32, 61, 32, 50, 92, 10, 51, 10] = some f ∧
+    (rawValue f [97] none [107]).toOption = some [50, 51] ∧
+    (rawValues f [97] none [107]).toOption = some [[49], [50, 51]] := by
+  refine ⟨_, rfl, by decide +kernel, by decide +kernel⟩
 
 end GixModel.Props.C27
